@@ -4,6 +4,7 @@ import (
 	"bytes"
 	"encoding/binary"
 	"fmt"
+	"io"
 	"strconv"
 	"strings"
 
@@ -37,6 +38,11 @@ func implEncode(f *fit.File, arch binary.ByteOrder) (out encOut) {
 	err := fit.Encode(&buf, f, arch)
 	return encOut{Err: err, Bytes: buf.Bytes()}
 }
+
+// onlyWriter implements io.Writer and nothing else.
+type onlyWriter struct{ b []byte }
+
+func (w *onlyWriter) Write(p []byte) (int, error) { w.b = append(w.b, p...); return len(p), nil }
 
 func (o encOut) class() string {
 	switch {
@@ -159,6 +165,43 @@ func checkC05Case(r *report, d *driver, c *fileCase, idx int) ([]byte, error) {
 	out2 := implEncode(f, c.arch())
 	if out2.class() != "O" || !bytes.Equal(out2.Bytes, out.Bytes) {
 		r.specFail("encode_twice", "a second Encode of the same File wrote different bytes", rep)
+	}
+	// the bytes Encode writes are what the io.Writer receives: they may depend neither on the dynamic type of the
+	// writer nor on what it holds already (a *bytes.Buffer with earlier content -- a frame prefix, a previous file --,
+	// a writer that only has Write); the File fields written back must be the same as well
+	{
+		prefix := []byte{0xA5, 0x00, 0xFF, byte(idx), 0x2E, 0x46, 0x49, 0x54, byte(idx >> 8)}[:1+idx%9]
+		pre := bytes.NewBuffer(append([]byte{}, prefix...))
+		var plain onlyWriter
+		for _, v := range []struct {
+			name string
+			w    io.Writer
+			got  func() []byte
+		}{
+			{"a *bytes.Buffer that already holds " + fmt.Sprint(len(prefix)) + " bytes", pre, func() []byte {
+				if b := pre.Bytes(); len(b) >= len(prefix) && bytes.Equal(b[:len(prefix)], prefix) {
+					return b[len(prefix):]
+				}
+				return nil
+			}},
+			{"a writer offering nothing but Write", &plain, func() []byte { return plain.b }},
+		} {
+			var e error
+			pan := ""
+			func() {
+				defer func() {
+					if x := recover(); x != nil {
+						pan = fmt.Sprint(x)
+					}
+				}()
+				e = fit.Encode(v.w, f, c.arch())
+			}()
+			if pan != "" || e != nil || !bytes.Equal(v.got(), out.Bytes) || canonFile(f) != after {
+				r.specFail("writer_dependent", fmt.Sprintf("Encode into %s: panic=%q err=%v, the bytes received differ from those a fresh bytes.Buffer receives (or the earlier content was touched, or the File written back differs)", v.name, pan, e),
+					encReplay(c, before, map[string]interface{}{"writer": v.name, "prefix_hex": hexs(prefix), "fresh_buffer_hex": hexs(out.Bytes), "received_hex": hexs(v.got())}))
+			}
+			r.hist("writer_kinds_compared")
+		}
 	}
 	r.Traces++
 	if idx < 3 {
